@@ -127,6 +127,7 @@ class World:
     def line_codes(self, plan):
         return ()
 
+    SLOW_STEP_THREADS = ()                    # thread-name prefixes whose CPU-heavy steps (sched.slow_steps) are violations
     SWARM_CONFIG = (("LOGWIRE", 0.12),)       # (config item, probability of switching it on) for every world
 
     def scenario(self, ctx):
@@ -212,6 +213,12 @@ class World:
                 ctx.violations.append({"kind": "decoder-allocation-bomb", "key": "marshal", "msg": "marshal.loads was handed a message that "
                                        "declares a %s of %d elements with %d bytes left: the C decoder allocates that much up front (GIL held); "
                                        "simulated as a failed allocation" % (typ, k, left)})
+            if self.SLOW_STEP_THREADS and harness is None:
+                for name, secs, kind in sched.slow_steps:
+                    if name.startswith(self.SLOW_STEP_THREADS) and not any(v["kind"] == "cpu-stall" for v in ctx.violations):
+                        ctx.violations.append({"kind": "cpu-stall", "key": name, "msg": "thread %s of the code under test burnt %.1f CPU "
+                                               "seconds in one step (between two yield points, no virtual time passes): every other "
+                                               "thread of a real process stands still meanwhile" % (name, secs)})
             for t in sched.deaths:
                 if t.died and t.died[0] == "BusyLoop" and not any(v["kind"] == "busy-loop" for v in ctx.violations):
                     if t.died[2] is None:
